@@ -56,6 +56,8 @@ def run(ctx):
     ctx.do(rule_single_use_iterators, "C11.iterator-pitfalls", ("stix2.datastore",))
     from .hidden_state import rule_no_hidden_state
     ctx.do(rule_no_hidden_state, "C11.history-independence")
+    from .pitfalls import rule_loops_not_cut_short
+    ctx.do(rule_loops_not_cut_short, "C11.loops-complete")
 
 
 def _open_mode(call):
